@@ -191,6 +191,7 @@ func c08Inner(sc c08Scenario) (vk.Result, error) {
 		time.Sleep(13 * time.Hour)
 	}()
 	var pkts []*c08Packet
+	floods := 0
 	type duringRes struct {
 		idx int
 		err error
@@ -298,6 +299,35 @@ func c08Inner(sc c08Scenario) (vk.Result, error) {
 				lastAccept[idx] = time.Now()
 			}
 			res.Labels = append(res.Labels, "concurrent-presentations")
+		case "flood":
+			// N other peers present first packets of their own (visitors of the disguised site, probes, other
+			// clients): the server's replay memory has to keep what it has seen however busy it is. Up to 2000 of
+			// them go through AuthFirstPacket (a genuine ClientHello with a fresh random: not a Cloak client, but
+			// registered); beyond that, the remaining ones are registered directly, as AuthFirstPacket would.
+			if len(pkts) == 0 {
+				continue
+			}
+			var base *c08Packet
+			for _, p := range pkts {
+				if !p.ws {
+					base = p
+				}
+			}
+			floods++
+			for k := 0; k < op.N; k++ {
+				var r [32]byte
+				vFill(r[:], uint64(0xF100D000+floods), uint64(k)*32)
+				if k < 2000 && base != nil && len(base.first) > 43 {
+					other := append([]byte(nil), base.first...)
+					copy(other[11:43], r[:])
+					if _, _, err := AuthFirstPacket(other, base.transport, sta); err == nil {
+						return res, vk.Violatef("a ClientHello with a foreign random and somebody else's sealed block was accepted")
+					}
+					continue
+				}
+				sta.registerRandom(r)
+			}
+			res.Labels = append(res.Labels, fmt.Sprintf("flood-of-other-first-packets>=%d", floodClass(op.N)))
 		case "advance":
 			time.Sleep(time.Duration(op.Ms) * time.Millisecond)
 			synctest.Wait()
@@ -346,6 +376,15 @@ func calledFromCleaner() bool {
 	}
 }
 
+func floodClass(n int) int {
+	for _, c := range []int{1000000, 100000, 10000, 1000} {
+		if n >= c {
+			return c
+		}
+	}
+	return 1
+}
+
 func c08Gen(rt *rapid.T) c08Scenario {
 	var sc c08Scenario
 	n := rapid.IntRange(2, 30).Draw(rt, "nops")
@@ -373,6 +412,8 @@ func c08Gen(rt *rapid.T) c08Scenario {
 			sc.Ops = append(sc.Ops, c08Op{K: "again", I: rapid.IntRange(0, 20).Draw(rt, "i")})
 		case k < 60:
 			sc.Ops = append(sc.Ops, c08Op{K: "variant", I: rapid.IntRange(0, 20).Draw(rt, "i"), Kind: rapid.SampledFrom([]string{"bit255", "bit255", "ciphersuite", "sni"}).Draw(rt, "vk")})
+		case k == 68:
+			sc.Ops = append(sc.Ops, c08Op{K: "flood", N: rapid.SampledFrom([]int{50, 3000, 40000, 70000, 140000, 300000}).Draw(rt, "flood")})
 		case k < 68:
 			sc.Ops = append(sc.Ops, c08Op{K: "concurrent", I: rapid.IntRange(0, 20).Draw(rt, "i"), N: rapid.IntRange(0, 14).Draw(rt, "n")})
 		default:
